@@ -67,13 +67,18 @@ class HeapGen:
         if p < 0.33 and self.open_mut:
             return {'r': r.choice(self.open_mut)}
         lay = r.choice(['dict', 'dict', 'list', 'tuple', 'inst'])
+        n = r.choice([0, 1, 2, 2, 3])
+        if lay == 'tuple' and n == 0 and not self.logging:
+            # CPython has exactly one empty tuple object: one cell for it, however often it occurs
+            for a0, c0 in enumerate(self.heap):
+                if c0['k'] == 'tuple' and c0['c'] == 'tuple' and not c0['v'] and a0 in self.closed:
+                    return {'r': a0}
         a = len(self.heap)
         cell = {'k': lay, 'c': self.cls(lay), 'v': []}
         self.heap.append(cell)
         mutable = lay != 'tuple'
         if mutable:
             self.open_mut.append(a)
-        n = r.choice([0, 1, 2, 2, 3])
         if lay == 'dict':
             keys = r.sample(NAMES + [0, 1, '0', '1', '-1', 'x y'], n)
             cell['v'] = [[jval(k), self.node(depth + 1)] for k in keys]
@@ -269,7 +274,9 @@ def run_impl(case):
     import glom
     from glom import Path, T, GlomError, PathAccessError
     objs, dv = pyobjs.decode(case['heap'])
-    ids = {id(o): a for a, o in enumerate(objs)}
+    ids = {}
+    for a, o in enumerate(objs):
+        ids.setdefault(id(o), a)
     target = dv(case['target'])
     sp = case['spelling']
     if 'text' in sp:
